@@ -46,6 +46,7 @@ int clock_gettime(clockid_t clk, struct timespec *ts) {
         *ts = is_real ? v_real : v_mono;
         /* as in the harness's own virtual clock: TAI = realtime + 37 s, boot time = monotonic + 1 h of suspension */
         if (clk == CLOCK_TAI) ts->tv_sec += 37;
+        if (clk == CLOCK_REALTIME_COARSE) { ts->tv_nsec -= 3000000; if (ts->tv_nsec < 0) { ts->tv_nsec += 1000000000; ts->tv_sec -= 1; } }
         if (clk == CLOCK_BOOTTIME || clk == CLOCK_BOOTTIME_ALARM) ts->tv_sec += 3600;
         return 0;
 }
